@@ -24,6 +24,8 @@ type Env struct {
 	atBlock *ssa.BasicBlock // loop head, for local resolution
 	inOld   bool
 	bound   map[string]bool
+	localsAfterNames bool
+	proving bool // evaluating a goal (witness hints of exists are used)
 	specDef *specDefCtx
 }
 
@@ -187,13 +189,18 @@ func (e *Env) ident(name string) *Value {
 		return leaf(types.Typ[types.Int], "q_"+name)
 	}
 	// locals first when evaluating loop invariants (parameters may be reassigned)
-	if e.fn != nil && e.atBlock != nil && !e.inOld {
+	if e.fn != nil && e.atBlock != nil && !e.inOld && !e.localsAfterNames {
 		if v := e.local(name); v != nil {
 			return v
 		}
 	}
 	if v, ok := e.names[name]; ok {
 		return v
+	}
+	if e.fn != nil && e.atBlock != nil && !e.inOld && e.localsAfterNames {
+		if v := e.local(name); v != nil {
+			return v
+		}
 	}
 	if g, ok := e.view().ghost[name]; ok {
 		return g
@@ -347,7 +354,9 @@ func (e *Env) fieldOf(b *Value, name string) *Value {
 			}
 			np := *cur.P
 			if np.Nil {
-				e.fail("nil pointer in contract")
+				// the contract dereferences a nil pointer: the specified function would panic here
+				e.st.dead = true
+				return x.freshValue(e.st, fv.Type(), "nilfield")
 			}
 			np.Path = append(append([]Sel(nil), cur.P.Path...), Sel{Field: fi})
 			stt := structOf(pt.Elem())
@@ -584,6 +593,35 @@ func identName(ex ast.Expr) string {
 }
 
 func (e *Env) quant(kind string, args []ast.Expr) *Value {
+	if kind == "exists" && len(args) == 5 {
+		// exists(k, lo, hi, body, witness): when proving, the witness is used; when assumed, it is a plain exists
+		if !e.proving {
+			return e.quant(kind, args[:4])
+		}
+		name := identName(args[0])
+		w := e.tryEval(args[4])
+		if w == nil {
+			return e.quant(kind, args[:4]) // witness not available on this path
+		}
+		lo := e.eval(args[1])
+		hi := e.eval(args[2])
+		saved, had := e.names[name]
+		nn := cloneNames(e.names)
+		nn[name] = leaf(types.Typ[types.Int], w.Term)
+		old := e.names
+		e.names = nn
+		wasB := e.bound[name]
+		if e.bound != nil {
+			e.bound[name] = false
+		}
+		bv := e.eval(args[3])
+		e.names = old
+		if e.bound != nil {
+			e.bound[name] = wasB
+		}
+		_, _ = saved, had
+		return boolLeaf(smtAnd([]string{fmt.Sprintf("(<= %s %s)", lo.Term, w.Term), fmt.Sprintf("(< %s %s)", w.Term, hi.Term), bv.Term}))
+	}
 	if len(args) != 2 && len(args) != 4 {
 		e.fail("%s(i, lo, hi, body) or %s(i, body)", kind, kind)
 	}
@@ -908,11 +946,52 @@ func (x *Exec) specInstance(sf *SpecFunc) *specInst {
 	}
 	ps = append(ps, hp...)
 	bodyT := strings.ReplaceAll(body.Term, "<HEAPARGS:"+sf.Name+">", strings.Join(hargs, " "))
-	kw := "define-fun"
 	if strings.Contains(bodyT, "("+si.name+" ") {
-		kw = "define-fun-rec"
+		// recursive: Dafny-style fuel encoding (bounded unfolding driven by triggers)
+		var sorts, args []string
+		for i := range pnames {
+			sorts = append(sorts, psorts[i])
+			args = append(args, pnames[i])
+		}
+		for _, k := range si.heapKeys {
+			srt := si.heapSort[k]
+			if strings.HasPrefix(k, "E|") || strings.HasPrefix(k, "MD|") || strings.HasPrefix(k, "MV|") {
+				sorts = append(sorts, fmt.Sprintf("(Array Int (Array Int %s))", srt))
+			} else {
+				sorts = append(sorts, fmt.Sprintf("(Array Int %s)", srt))
+			}
+			args = append(args, "|hp_"+smtName(k)+"|")
+		}
+		fname := si.name + "_f"
+		// body with recursive calls at fuel k
+		bodyK := strings.ReplaceAll(bodyT, "("+si.name+" ", "("+fname+" fk ")
+		lhs := fmt.Sprintf("(%s (FS fk) %s)", fname, strings.Join(args, " "))
+		si.decl = fmt.Sprintf("(declare-fun %s (Fuel %s) %s)\n", fname, strings.Join(sorts, " "), rsort) +
+			fmt.Sprintf("(assert (forall ((fk Fuel) %s) (! (= %s (%s fk %s)) :pattern (%s))))\n", strings.Join(ps, " "), lhs, fname, strings.Join(args, " "), lhs) +
+			fmt.Sprintf("(assert (forall ((fk Fuel) %s) (! (= %s %s) :pattern (%s))))\n", strings.Join(ps, " "), lhs, bodyK, lhs) +
+			fmt.Sprintf("(define-fun %s (%s) %s (%s (FS (FS FZ)) %s))", si.name, strings.Join(ps, " "), rsort, fname, strings.Join(args, " "))
+	} else if len(ps) > 0 && !x.eng.macroSpecs {
+		// non-recursive: uninterpreted symbol + definitional axiom triggered on its applications
+		var sorts, args []string
+		for i := range pnames {
+			sorts = append(sorts, psorts[i])
+			args = append(args, pnames[i])
+		}
+		for _, k := range si.heapKeys {
+			srt := si.heapSort[k]
+			if strings.HasPrefix(k, "E|") || strings.HasPrefix(k, "MD|") || strings.HasPrefix(k, "MV|") {
+				sorts = append(sorts, fmt.Sprintf("(Array Int (Array Int %s))", srt))
+			} else {
+				sorts = append(sorts, fmt.Sprintf("(Array Int %s)", srt))
+			}
+			args = append(args, "|hp_"+smtName(k)+"|")
+		}
+		app := fmt.Sprintf("(%s %s)", si.name, strings.Join(args, " "))
+		si.decl = fmt.Sprintf("(declare-fun %s (%s) %s)\n", si.name, strings.Join(sorts, " "), rsort) +
+			fmt.Sprintf("(assert (forall (%s) (! (= %s %s) :pattern (%s))))", strings.Join(ps, " "), app, bodyT, app)
+	} else {
+		si.decl = fmt.Sprintf("(define-fun %s (%s) %s %s)", si.name, strings.Join(ps, " "), rsort, bodyT)
 	}
-	si.decl = fmt.Sprintf("(%s %s (%s) %s %s)", kw, si.name, strings.Join(ps, " "), rsort, bodyT)
 	x.specDecls = append(x.specDecls, si.decl)
 	return si
 }
@@ -993,4 +1072,17 @@ func (x *Exec) havocLocation(env *Env, c *Clause) {
 	lv := env.lvalue(c.Expr)
 	_, t := pathInfo(lv.P.Root, lv.P.Path)
 	x.store(st, lv.P, x.freshValue(st, t, "assigned"))
+}
+
+func (e *Env) tryEval(ex ast.Expr) (v *Value) {
+	defer func() {
+		if r := recover(); r != nil {
+			if _, ok := r.(evalError); ok {
+				v = nil
+				return
+			}
+			panic(r)
+		}
+	}()
+	return e.eval(ex)
 }
